@@ -17,23 +17,36 @@ import concepts  # noqa: E402
 from mc.props import C11  # noqa: E402
 
 
-def main(path):
+def main(path, out=None):
     with open(path, 'rb') as f:
         batch = pickle.load(f)
+    again = []
     for kind, blob in batch:
+        nxt = blob
         try:
             if kind == 'json':
                 ctx = concepts.Context.fromjson(io.StringIO(blob.decode('utf-8')))
                 print(C11.digest(C11.full_obs(ctx)))
+                buf = io.StringIO()
+                ctx.tojson(buf)
+                nxt = buf.getvalue().encode('utf-8')
             elif kind == 'pickle-context':
-                print(C11.digest(C11.full_obs(pickle.loads(blob))))
+                obj = pickle.loads(blob)
+                nxt = pickle.dumps(obj)      # before any query: the loaded state itself
+                print(C11.digest(C11.full_obs(obj)))
             elif kind == 'pickle-lattice':
-                print(C11.digest(C11.lattice_obs(pickle.loads(blob))))
+                obj = pickle.loads(blob)
+                nxt = pickle.dumps(obj)
+                print(C11.digest(C11.lattice_obs(obj)))
             else:
                 print('unknown-kind')
         except Exception as e:   # the library failed in the fresh process: reported by the parent
             print(f'EXC:{type(e).__name__}:{e}'.replace('\n', ' '))
+        again.append((kind, nxt))
+    if out:
+        with open(out, 'wb') as f:     # what this process loaded, serialized again by it
+            pickle.dump(again, f)
 
 
 if __name__ == '__main__':
-    main(sys.argv[1])
+    main(*sys.argv[1:3])
